@@ -13,7 +13,11 @@ var shapes = []struct{ lit, key0, nested string }{
 	{"[\"a\" => $e0, \"b\" => $e1]", "\"a\"", ""},
 	{"[[$e0, 2], [$e1]]", "0", "[0]"},
 	{"[[], $e0, [$e1]]", "0", "[0]"}, // an EMPTY inner list (writes into it must not be shared either)
+	{"listWithKey($e0, $e1)", "\"k\"", ""}, // a list that received a string key after construction
 }
+
+// prelude shared by all templates
+const prelude = "function listWithKey($x, $y) { $t = [$x, $y, 3]; $t[\"k\"] = 5; return $t; }\n"
 
 // snapshot statements for expression X (emits every leaf + count)
 func snap(x string, shape int) string {
@@ -35,6 +39,14 @@ var routes = []struct{ name, setup, a, b string }{
 	{"out-of-property", "class K { public $p = null; } $o = new K(); $o->p = $a; $b = $o->p;", "$o->p", "$b"},
 	{"into-element", "$c = [$a, 5];", "$a", "$c[0]"},
 	{"out-of-element", "$c = [$a, 5]; $b = $c[0];", "$c[0]", "$b"},
+	// a getter hands out a stored array: the receiver of `$b = $g->get()` / `$b = getp($g)` is a copy
+	{"method-returns-property", "class G { public $items = null; function get() { return $this->items; } } $g = new G(); $g->items = $a; $b = $g->get();", "$g->items", "$b"},
+	{"function-returns-property", "class G2 { public $items = null; } function getp($o) { return $o->items; } $g2 = new G2(); $g2->items = $a; $b = getp($g2);", "$g2->items", "$b"},
+	{"static-method-returns-static", "class G3 { public static $s = null; static function get() { return G3::$s; } } G3::$s = $a; $b = G3::get();", "G3::$s", "$b"},
+	// stores into another array by append and by string key
+	{"appended-into-array", "$c = []; $c[] = $a;", "$a", "$c[0]"},
+	{"string-key-into-array", "$c = [0]; $c[\"x\"] = $a;", "$a", "$c[\"x\"]"},
+	{"int-key-into-array", "$c = [0, 1]; $c[1] = $a;", "$a", "$c[1]"},
 }
 
 // mutations of expression X
@@ -128,7 +140,7 @@ func H_alias() {
 		lit := S.lit
 		setup = "function mk($e0, $e1) { $t = " + lit + "; return $t; } $b = mk($e0, $e1); $a2 = $b;"
 	}
-	src := "$a = " + S.lit + ";\n" + setup + "\n" + snap(observed, sh) + "\nmark(1);\n" + mut + "\nmark(2);\n" + snap(observed, sh)
+	src := prelude + "$a = " + S.lit + ";\n" + setup + "\n" + snap(observed, sh) + "\nmark(1);\n" + mut + "\nmark(2);\n" + snap(observed, sh)
 	s := sx.Compile(src)
 	symx.Assert(s.Err == nil, "template parses")
 	if s.Err != nil {
